@@ -462,6 +462,38 @@ func init() {
 				rec(v2)
 			}
 		}
+		// A ticket cookie this proxy did not issue is not ACTED ON at all: presented on any endpoint (the session loader clears what it
+		// cannot load; sign-out clears what is presented) it deletes no entry of the shared store — not another user's session, not an
+		// unrelated key
+		{
+			victim := newBrowser()
+			if lr := e.login(victim, u, "/v"); lr.OK {
+				vid, _ := ticketPartsOf(victim.jar[e.opts.Cookie.Name])
+				e.mr.Set("unrelated:key", "precious")
+				mk := func(id string, signWith string) string {
+					raw := "v2." + base64.RawURLEncoding.EncodeToString([]byte(id)) + "." + base64.RawURLEncoding.EncodeToString(make([]byte, 16))
+					val := base64.URLEncoding.EncodeToString([]byte(raw))
+					ts := fmt.Sprintf("%d", time.Now().Unix())
+					sig := base64.URLEncoding.EncodeToString(hmacSHA256([]byte(signWith), []byte(e.opts.Cookie.Name+val+ts)))
+					return e.opts.Cookie.Name + "=" + val + "|" + ts + "|" + sig
+				}
+				for _, id := range []string{vid, "unrelated:key"} {
+					for _, forged := range []string{mk(id, "not-the-proxy-secret-0123456789ab"), strings.Replace(mk(id, "x"), "|", "", 1), e.opts.Cookie.Name + "=" + base64.URLEncoding.EncodeToString([]byte("v2."+base64.RawURLEncoding.EncodeToString([]byte(id))+".AAAA"))} {
+						for _, tg := range []string{"/app/x", e.opts.ProxyPrefix + "/sign_out", e.opts.ProxyPrefix + "/auth", e.opts.ProxyPrefix + "/sign_in"} {
+							e.do(reqSpec{Target: tg, Cookie: forged})
+							c.casen("forged-ticket|"+id+"|"+tg+"|"+truncate(forged, 40), "")
+							c.count("c02:forged-ticket")
+						}
+					}
+				}
+				still := e.do(reqSpec{Target: "/app/victim", Cookie: victim.cookieHeader()})
+				unrelated, _ := e.mr.Get("unrelated:key")
+				if len(still.Hits) == 0 || unrelated != "precious" {
+					c.violation("C02", "a ticket cookie the proxy never issued (wrong signature / no signature) was acted on: presenting it deleted store entries it names",
+						map[string]interface{}{"victim_session_survives": len(still.Hits) > 0, "unrelated_key_survives": unrelated == "precious"})
+				}
+			}
+		}
 		e.close()
 		// cookie store: the same session sealed again and again (every refresh re-issues the cookie): under a cipher whose
 		// key stream depends on the fresh IV no two cookies share an aligned 16-byte block; shared blocks mean the XOR of two
@@ -530,7 +562,7 @@ func init() {
 			}
 			ec.close()
 		}
-		c.close([]string{"c02:ticket", "c02:trivial-key-try", "c02:entry-nonce", "c02:cookie-block-pairs"})
+		c.close([]string{"c02:ticket", "c02:trivial-key-try", "c02:entry-nonce", "c02:cookie-block-pairs", "c02:forged-ticket"})
 	})
 
 	registerSuite("saveconc", func(c *suiteCtx) {
